@@ -85,8 +85,8 @@ def describe(c, e, g):
 def shrink(c, e, g, rel=None):
     """greedy: drop rows of A and B while the disagreement persists"""
     rel = rel or engine_rel
-    if c.get('_expected_warning') is not None or 'poison' in c.get('tags', ()) or 'static' in c.get('tags', ()):
-        return c, e, g      # the expectation (warning, planted record number) was computed for the whole table: do not shrink
+    if c.get('_expected_warning') is not None or 'poison' in c.get('tags', ()) or 'static' in c.get('tags', ()) or 'headers' in c.get('tags', ()):
+        return c, e, g      # the expectation (warning, planted record number) was computed for the whole table, or the headers were cut to the first records: do not shrink
     cur = c
     changed = True
     budget = 40
